@@ -114,6 +114,17 @@ func init() {
 	psi := fill(184, 0x31)
 	copy(psi, []byte{0x00, 0x02, 0xB1, 0x20, 0x00, 0x01, 0xC1, 0x00, 0x00, 0xE1, 0x00, 0xF0, 0x00})
 	add("PUSI+PSI-section-start(section_length 288)+184", true, psi, false)
+	// the accumulator takes "every sequence of packets": the PID is not its business, not even the null PID
+	for _, pusi := range []bool{false, true} {
+		h := ref.Header{Sync: 0x47, PUSI: pusi, PID: 0x1FFF, CC: byte(len(c17Alphabet)), AFC: 1}
+		pay := fill(184, 0xB0)
+		raw := ref.BuildPacket(h, nil, -1, pay)
+		name := "cont+184 on the null PID"
+		if pusi {
+			name = "PUSI+184 on the null PID"
+		}
+		c17Alphabet = append(c17Alphabet, c17Pkt{name, raw, pay, pusi})
+	}
 }
 
 type c17State struct {
@@ -393,7 +404,7 @@ func init() {
 		Scenarios: []engine.ScenarioRunner{
 			&engine.BFS[*c17State]{
 				Name:  "histories",
-				Rule:  "BFS over all histories of {WritePacket(p) for 15 packets (unit starts carrying a PES packet start that announces fewer / more bytes than the payload holds and a PSI section start; PUSI/continuation x 184-byte payloads A/B, 3-byte and 1-byte payloads behind adaptation-field stuffing, AF-only with and without PUSI, AF length 183 with payload flag, adaptation_field_control 00 with and without PUSI), Reset} from a new accumulator, one run per completion predicate (never; done at >=1/184/185/368 bytes; error at >=184/368; done-then-error; error-after-done); after every call Bytes(), Packets(), the predicate's argument, the returned error class and input immutability are compared with a list model, returned slices are overwritten as aliasing probes (also the packets the returned list points to: Bytes() must not follow them), and after Reset the canonical state must equal a new accumulator's; canonical key = private state (hook) + bytes + packets + model flags; depth 6 (quick) / 8 (thorough)",
+				Rule:  "BFS over all histories of {WritePacket(p) for 17 packets (two on the null PID 0x1FFF; unit starts carrying a PES packet start that announces fewer / more bytes than the payload holds and a PSI section start; PUSI/continuation x 184-byte payloads A/B, 3-byte and 1-byte payloads behind adaptation-field stuffing, AF-only with and without PUSI, AF length 183 with payload flag, adaptation_field_control 00 with and without PUSI), Reset} from a new accumulator, one run per completion predicate (never; done at >=1/184/185/368 bytes; error at >=184/368; done-then-error; error-after-done); after every call Bytes(), Packets(), the predicate's argument, the returned error class and input immutability are compared with a list model, returned slices are overwritten as aliasing probes (also the packets the returned list points to: Bytes() must not follow them), and after Reset the canonical state must equal a new accumulator's; canonical key = private state (hook) + bytes + packets + model flags; depth 6 (quick) / 8 (thorough)",
 				Inits: func(r *engine.Run) []int { return seq(0, len(c17Preds)-1) },
 				NOps:  func(r *engine.Run) int { return len(c17Alphabet) + 1 },
 				New:   c17New,
@@ -428,7 +439,7 @@ func init() {
 					}
 					for p := range c17Preds {
 						for _, st := range []int{0, 4, 12, 13, 14} {
-							for _, ct := range []int{2, 3, 5, 6} {
+							for _, ct := range []int{2, 3, 5, 6, 15} {
 								if st >= 12 && ct != 2 && ct != 6 {
 									continue
 								}
